@@ -56,9 +56,51 @@ def canon(x):
     return x.replace(" ", "").replace("\n", "")
 
 
+def output_body_deviates(rep, ty):
+    """operation outputs have no decoder: the real build is asked through the service instead.  The backend returns the output
+    with every simple member set to "F-<field>" (replayer fill mode); each body member of the API model that was filled must
+    appear in the response document as <XmlName>F-field</XmlName> (timestamps / integers / booleans by their text)."""
+    import C03
+    from vlib.smithy import Model, snake
+    model = Model()
+    op = ty[:-len("Output")]
+    if op not in model.ops:
+        return False
+    b = replay.binary()
+    filled = dict((m, dict(fs)) for m, fs in json.loads(subprocess.run([b, "filled"], stdout=subprocess.PIPE, text=True, timeout=60).stdout))
+    fs = filled.get(snake(op), {})
+    out = replay.run_scenarios([{"config": {}, "request": C03.model_request(op, C03.BODIES.get(op)), "backend": {"output": {"fill": True}}}])[0]
+    rep.traces_validated += 1
+    if not any(e["ev"].startswith("s3.") for e in out.get("events", [])):
+        return False
+    body = out.get("body_text", "")
+    for name, i in model.members(model.output_shape(op)):
+        if i["loc"] != "body":
+            continue
+        f = [x for x in fs if x.replace("_", "") == snake(name).replace("_", "")]
+        if not f:
+            continue
+        kind = fs[f[0]]
+        xml_name = i["xml_name"] or name
+        if kind == "string":
+            want = ["<%s>F-%s</%s>" % (xml_name, f[0], xml_name)]
+        elif kind == "timestamp":
+            want = ["<%s>2018-01-09T20:51:21Z</%s>" % (xml_name, xml_name), "<%s>2018-01-09T20:51:21.000Z</%s>" % (xml_name, xml_name)]
+        else:
+            want = ["<%s>%s</%s>" % (xml_name, {"int": "7", "bool": "true"}[kind], xml_name)]
+        if not any(w in body for w in want):
+            return True
+    return False
+
+
 def confirm(rep, key, what, data):
     kind = key.split(":")[0]
     ty = key.split(":")[1].split(".")[0]
+    if ty.endswith("Output") and kind in ("name-missing", "name-extra", "list-shape", "element-binding", "ser"):
+        try:
+            return output_body_deviates(rep, ty)
+        except Exception:      # noqa: BLE001
+            return False
     doc = None
     if isinstance(data, dict) and "document" in data:
         doc = data["document"]
@@ -77,7 +119,7 @@ def confirm(rep, key, what, data):
     if kind == "xml-attribute-as-element":
         name = key.split(".", 1)[1]
         return "<%s>" % name in out.get("ok", "")
-    if kind in ("name-missing", "name-extra", "list-shape"):
+    if kind in ("name-missing", "name-extra", "list-shape", "element-binding"):
         # the real serializer's output is what rsx described: confirmed if the re-encoded document equals rsx's
         return canon(out.get("ok", "")) == canon(xml)
     return False
